@@ -28,6 +28,7 @@ func c04case(c GCase, a *run.Acc, variant int) {
 		Evaluate:    variant&8 == 8,
 		NoSentence:  variant&16 == 16,
 	}
+	o.Before = c.Before()
 	lrFree := !g.LeftRecursive()
 	if variant&32 == 32 && lrFree {
 		o.NoMemo = true
